@@ -5,6 +5,7 @@ valid trees, and the readers of M14 applied to the trees of M16 (`KmipModel/Enco
 import KmipModel.EncodeRequest
 import KmipModel.Lemmas.TTLVItem
 import KmipModel.Lemmas.Prim
+import KmipModel.Lemmas.EncodeRequestAttr
 namespace Kmip.EncodeRequest
 open Kmip Kmip.TTLV Kmip.Decode
 
@@ -147,5 +148,174 @@ theorem lenientTop_encode (t : Nat) (ks : List TItem) (h : lvalidB (.struct t ks
   rw [splitHeader_header _ _ _ _ (tagOk_lt t htag) (by decide) hlen]
   simp only [if_true]
   rw [lparse_list ks hks htk _ (by omega)]
+
+/-! ### text -/
+
+theorem utf8Chars_ascii (l : List Char) (h : l.all (fun c => c.toNat < 128) = true) :
+    utf8Chars (l.map (fun c => UInt8.ofNat c.toNat)) = l := by
+  induction l with
+  | nil => rfl
+  | cons c cs ih =>
+    simp only [List.all_cons, Bool.and_eq_true, decide_eq_true_eq] at h
+    have hb : (UInt8.ofNat c.toNat).toNat = c.toNat := by rw [UInt8.toNat_ofNat']; omega
+    have hlt : UInt8.ofNat c.toNat < 0x80 := by rw [UInt8.lt_iff_toNat_lt, hb]; exact h.1
+    rw [List.map_cons, utf8Chars.eq_def]
+    simp only [hlt, ↓reduceIte, hb, Char.ofNat_toNat, ih h.2]
+
+/-- an ASCII string is the text of its bytes -/
+theorem textOf_asciiBytes (s : String) (h : isAscii s = true) : textOf (asciiBytes s) = s := by
+  unfold textOf asciiBytes
+  rw [utf8Chars_ascii _ h, String.ofList_toList]
+
+theorem validUtf8_ascii (l : List Char) (h : l.all (fun c => c.toNat < 128) = true) :
+    Prim.validUtf8 (l.map (fun c => UInt8.ofNat c.toNat)) = true := by
+  induction l with
+  | nil => rfl
+  | cons c cs ih =>
+    simp only [List.all_cons, Bool.and_eq_true, decide_eq_true_eq] at h
+    have hb : (UInt8.ofNat c.toNat).toNat = c.toNat := by rw [UInt8.toNat_ofNat']; omega
+    have hlt : UInt8.ofNat c.toNat < 0x80 := by rw [UInt8.lt_iff_toNat_lt, hb]; exact h.1
+    rw [List.map_cons, Prim.validUtf8.eq_def]
+    simp only [hlt, ↓reduceIte, ih h.2]
+
+theorem validUtf8_asciiBytes (s : String) (h : isAscii s = true) : Prim.validUtf8 (asciiBytes s) = true :=
+  validUtf8_ascii _ h
+
+/-! ### the reader monad of M14, evaluated -/
+
+attribute [kmip_tags]
+  T.activationDate T.applicationData T.applicationNamespace T.applicationSpecificInformation T.archiveDate 
+  T.asynchronousIndicator T.attestationAssertion T.attestationMeasurement T.attestationType T.attributeIndex 
+  T.attributeName T.attributeReference T.attributeValue T.attribute_ T.attributes_ 
+  T.authenticatedEncryptionAdditionalData T.authenticatedEncryptionTag T.authentication T.batchCount 
+  T.batchErrorContinuationOption T.batchItem T.batchOrderOption T.blockCipherMode T.certificateIdentifier 
+  T.certificateIssuer T.certificateLength T.certificateSubject T.certificateType T.certificateValue 
+  T.certificate_ T.commonAttributes T.commonProtectionStorageMasks T.commonTemplateAttribute T.compromiseDate 
+  T.compromiseOccurrenceDate T.contactInformation T.correlationValue T.counterLength T.credential 
+  T.credentialType T.credentialValue T.cryptographicAlgorithm T.cryptographicDomainParameters 
+  T.cryptographicLength T.cryptographicParameters T.cryptographicUsageMask T.currentAttribute T.data_ 
+  T.deactivationDate T.derivationData T.derivationMethod T.derivationParameters T.destroyDate 
+  T.deviceIdentifier T.deviceSerialNumber T.digestValue T.digest_ T.digestedData T.digitalSignatureAlgorithm 
+  T.encodingOption T.encryptionKeyInformation T.ephemeral T.finalIndicator T.fixedFieldLength T.fresh_ 
+  T.hashingAlgorithm T.initIndicator T.initialCounterValue T.initialDate T.initializationVector 
+  T.invocationFieldLength T.iterationCount T.ivCounterNonce T.ivLength T.keyBlock T.keyCompressionType 
+  T.keyFormatType T.keyMaterial T.keyPartIdentifier T.keyRoleType T.keyValue T.keyWrappingData 
+  T.keyWrappingSpecification T.lastChangeDate T.leaseTime T.link_ T.macSignature T.macSignatureKeyInformation 
+  T.machineIdentifier T.maximumItems T.maximumResponseSize T.mediaIdentifier T.messageExtension T.nameType 
+  T.nameValue T.name_ T.networkIdentifier T.newAttribute T.nonce T.nonceId T.nonceValue T.objectGroup 
+  T.objectGroupMember T.objectType T.offsetItems T.opaqueDataType T.opaqueDataValue T.opaqueObject 
+  T.operationPolicyName T.operation_ T.paddingMethod T.password_ T.primeFieldSize T.privateKey 
+  T.privateKeyAttributes T.privateKeyTemplateAttribute T.privateProtectionStorageMasks T.processStartDate 
+  T.protectStopDate T.protectionStorageMask T.protectionStorageMasks T.protocolVersion T.protocolVersionMajor 
+  T.protocolVersionMinor T.publicKey T.publicKeyAttributes T.publicKeyTemplateAttribute 
+  T.publicProtectionStorageMasks T.queryFunction T.randomIv T.requestHeader T.requestMessage T.requestPayload 
+  T.revocationMessage T.revocationReason T.revocationReasonCode T.salt T.secretData T.secretDataType 
+  T.sensitive_ T.signatureData T.splitKey T.splitKeyMethod T.splitKeyParts T.splitKeyThreshold T.state_ 
+  T.storageStatusMask T.symmetricKey T.tagLength T.templateAttribute T.template_ T.timeStamp 
+  T.uniqueBatchItemId T.uniqueIdentifier T.usageLimits T.username_ T.vendorIdentification T.wrappingMethod 
+  T.x509CertificateIdentifier T.x509CertificateIssuer T.x509CertificateSubject 
+
+@[rd_eval] theorem bind_apply {α β} (m : Rd α) (k : α → Rd β) (s : List TItem) :
+    (m >>= k) s = (match m s with | .ok (a, s') => k a s' | .error e => .error e) := rfl
+@[rd_eval] theorem pure_apply {α} (a : α) (s : List TItem) : (pure a : Rd α) s = .ok (a, s) := rfl
+
+@[rd_eval] theorem tagOf_txt (t : Nat) (s : String) : tagOf (txt t s) = t := rfl
+@[rd_eval] theorem tagOf_enm (t n : Nat) : tagOf (enm t n) = t := rfl
+@[rd_eval] theorem tagOf_int (t : Nat) (n : Int) : tagOf (int t n) = t := rfl
+@[rd_eval] theorem tagOf_byt (t : Nat) (b : Bytes) : tagOf (byt t b) = t := rfl
+@[rd_eval] theorem tagOf_boo (t : Nat) (b : Bool) : tagOf (boo t b) = t := rfl
+@[rd_eval] theorem tagOf_dat (t : Nat) (n : Int) : tagOf (dat t n) = t := rfl
+@[rd_eval] theorem tagOf_struct (t : Nat) (ks : List TItem) : tagOf (.struct t ks) = t := rfl
+
+/-- `TextString.read` of an ASCII text -/
+@[rd_eval] theorem asText_txt (w : String) (t : Nat) (s : String) (h : okText s = true) : asText w (txt t s) = .ok s := by
+  simp only [asText, txt, textOf_asciiBytes s h]
+/-- … of any text, when the value does not matter -/
+theorem asText_txt' (w : String) (t : Nat) (s : String) : asText w (txt t s) = .ok (textOf (asciiBytes s)) := rfl
+@[rd_eval] theorem asEnum_enm (w : String) (ms : List Nat) (t n : Nat) (h : ms.contains n = true) :
+    asEnum w ms (enm t n) = .ok n := by
+  simp only [asEnum, enm, h, ↓reduceIte]
+@[rd_eval] theorem asInt_int (w : String) (t : Nat) (n : Int) : asInt w (int t n) = .ok n := rfl
+@[rd_eval] theorem asBytes_byt (w : String) (t : Nat) (b : Bytes) : asBytes w (byt t b) = .ok b := rfl
+@[rd_eval] theorem asBool_boo (w : String) (t : Nat) (b : Bool) : asBool w (boo t b) = .ok b := rfl
+@[rd_eval] theorem asDate_dat (w : String) (t : Nat) (n : Int) : asDate w (dat t n) = .ok n := rfl
+
+attribute [rd_eval] Rd.lift Rd.fail Rd.run inStruct uidField optL ifL uidL okOpt
+  beq_self_eq_true List.isEmpty_nil List.isEmpty_cons List.nil_append List.cons_append List.append_nil
+  Bool.and_eq_true Bool.false_eq_true Except.map Option.map_some Option.map_none Option.isSome_some Option.isSome_none
+  Option.getD_some Option.getD_none Option.bind_some Option.bind_none
+
+/-- the first item of a stream is not tagged `t` (what ends a `while is_tag_next` loop / skips an optional field) -/
+def headNe (t : Nat) : List TItem → Bool
+  | [] => true
+  | i :: _ => tagOf i != t
+
+@[rd_eval] theorem headNe_nil (t : Nat) : headNe t [] = true := rfl
+@[rd_eval] theorem headNe_cons (t : Nat) (i : TItem) (r : List TItem) : headNe t (i :: r) = (tagOf i != t) := rfl
+
+@[rd_eval] theorem req_cons {α} (what : String) (t : Nat) (f : TItem → D α) (i : TItem) (rest : List TItem) :
+    req what t f (i :: rest) =
+      if tagOf i == t then (match f i with | .ok a => .ok (a, rest) | .error e => .error e) else .error (.missing what) := rfl
+@[rd_eval] theorem req_nil {α} (what : String) (t : Nat) (f : TItem → D α) : req what t f [] = .error (.missing what) := rfl
+@[rd_eval] theorem opt_cons {α} (t : Nat) (f : TItem → D α) (i : TItem) (rest : List TItem) :
+    opt t f (i :: rest) =
+      if tagOf i == t then (match f i with | .ok a => .ok (some a, rest) | .error e => .error e) else .ok (none, i :: rest) := rfl
+@[rd_eval] theorem opt_nil {α} (t : Nat) (f : TItem → D α) : opt t f [] = .ok (none, []) := rfl
+@[rd_eval] theorem done_nil (what : String) : done what [] = .ok ((), []) := rfl
+@[rd_eval] theorem done_cons (what : String) (i : TItem) (r : List TItem) : done what (i :: r) = .error (.trailing what) := rfl
+
+/-- `if is_tag_next(t)` on a stream that starts with something else -/
+theorem opt_miss {α} (t : Nat) (f : TItem → D α) (s : List TItem) (h : headNe t s = true) :
+    opt t f s = .ok (none, s) := by
+  cases s with
+  | nil => rfl
+  | cons i r =>
+    simp only [headNe, bne_iff_ne, ne_eq] at h
+    simp only [opt, beq_iff_eq, h, ↓reduceIte]
+
+theorem many_nil {β} (t : Nat) (g : TItem → D β) : many t g [] = .ok ([], []) := rfl
+
+theorem many_stop {β} (t : Nat) (g : TItem → D β) (rest : List TItem) (h : headNe t rest = true) :
+    many t g rest = .ok ([], rest) := by
+  cases rest with
+  | nil => rfl
+  | cons i r =>
+    simp only [headNe, bne_iff_ne, ne_eq] at h
+    rw [many]
+    simp only [beq_iff_eq, h, ↓reduceIte]
+
+/-- `while is_tag_next(t): read` over the encodings of a list, followed by something else -/
+theorem many_map_append {α β} (t : Nat) (g : TItem → D β) (f : α → TItem) (h : α → β) (l : List α)
+    (rest : List TItem) (hf : ∀ a ∈ l, tagOf (f a) = t ∧ g (f a) = .ok (h a)) (hr : headNe t rest = true) :
+    many t g (l.map f ++ rest) = .ok (l.map h, rest) := by
+  induction l with
+  | nil => exact many_stop t g rest hr
+  | cons a as ih =>
+    have ha := hf a List.mem_cons_self
+    have ih' := ih (fun x hx => hf x (List.mem_cons_of_mem _ hx))
+    simp only [List.map_cons, List.cons_append]
+    rw [many]
+    simp only [ha.1, beq_self_eq_true, ↓reduceIte, ha.2, ih']
+
+theorem many_map {α β} (t : Nat) (g : TItem → D β) (f : α → TItem) (h : α → β) (l : List α)
+    (hf : ∀ a ∈ l, tagOf (f a) = t ∧ g (f a) = .ok (h a)) :
+    many t g (l.map f) = .ok (l.map h, []) := by
+  have := many_map_append t g f h l [] hf rfl
+  simpa only [List.append_nil] using this
+
+theorem headNe_map {α} (t : Nat) (f : α → TItem) (l : List α) (rest : List TItem)
+    (hf : ∀ a, (tagOf (f a) != t) = true) (hr : headNe t rest = true) : headNe t (l.map f ++ rest) = true := by
+  cases l with
+  | nil => exact hr
+  | cons a as => exact hf a
+
+theorem mapD_map {α β γ} (g : β → D γ) (f : α → β) (h : α → γ) (l : List α)
+    (hf : ∀ a ∈ l, g (f a) = .ok (h a)) : mapD g (l.map f) = .ok (l.map h) := by
+  induction l with
+  | nil => rfl
+  | cons a as ih =>
+    simp only [List.map_cons]
+    rw [mapD]
+    simp only [hf a List.mem_cons_self, ih (fun x hx => hf x (List.mem_cons_of_mem _ hx))]
 
 end Kmip.EncodeRequest
